@@ -1,12 +1,24 @@
 #!/usr/bin/env python3
-"""setup_cmd: build the whole Coq development (full .vo) and the oracle, offline."""
+"""setup_cmd: regenerate the translated parts of the model from /repo, build the
+whole Coq development (full .vo) and the oracle, offline.
+
+The exit status reflects only what does not depend on /repo's content (lint,
+oracle build): a proof that no longer checks against the regenerated files is
+the business of the property check that owns it, which rebuilds its own
+Properties_Cxx.vo and reports the violation with a replay."""
 import os, subprocess, sys
 sys.path.insert(0, os.path.dirname(os.path.abspath(__file__)))
-import common
+import common, gen
+for g in (gen.gen_crc, gen.gen_sha, gen.gen_bcj, gen.gen_codewrap, gen.gen_consts,
+          gen.gen_bounds, gen.gen_scripts):
+    try:
+        g()
+    except Exception as e:          # the owning check regenerates again and reports
+        print('setup: %s failed: %s' % (g.__name__, str(e)[:300]))
 common.coq_makefile()
-r = subprocess.run(['make', '-j', str(common.NCPU)], cwd=common.COQ)
+r = subprocess.run(['make', '-k', '-j', str(common.NCPU)], cwd=common.COQ)
 if r.returncode != 0:
-    sys.exit(1)
+    print('setup: some .vo did not build; the owning property checks will report them')
 bad = common.coq_lint()
 if bad:
     print('\n'.join(bad)); sys.exit(1)
